@@ -852,9 +852,12 @@ func evalCmpConst(op token.Token, x, y ssa.Value) (holds, known bool) {
 	cx, okx := x.(*ssa.Const)
 	cy, oky := y.(*ssa.Const)
 	nonNil := func(v ssa.Value) bool {
-		switch v.(type) {
+		switch x := v.(type) {
 		case *ssa.MakeInterface, *ssa.Alloc, *ssa.MakeClosure, *ssa.MakeChan, *ssa.MakeMap, *ssa.MakeSlice, *ssa.Function:
 			return true
+		case *ssa.Call:
+			o := calleeObj(x)
+			return funcIs(o, "errors", "", "New") || funcIs(o, "fmt", "", "Errorf")
 		}
 		return false
 	}
@@ -1825,6 +1828,11 @@ func hasThreadableBranch(fn *ssa.Function) bool {
 		}
 		c, _ := cmpOf(iff.Cond, true)
 		for _, v := range []ssa.Value{c.X, c.Y} {
+			if u, ok := v.(*ssa.UnOp); ok && u.Op == token.MUL {
+				if _, isAl := u.X.(*ssa.Alloc); isAl {
+					found = true
+				}
+			}
 			if phi, ok := v.(*ssa.Phi); ok {
 				for _, e := range phi.Edges {
 					if _, isC := e.(*ssa.Const); isC {
@@ -1841,6 +1849,12 @@ func hasThreadableBranch(fn *ssa.Function) bool {
 // feasibleSuccs: the successors of b that can be taken given through which
 // predecessor each join on the current path was entered.
 func feasibleSuccs(b *ssa.BasicBlock, taken map[*ssa.BasicBlock]int) []*ssa.BasicBlock {
+	return feasibleSuccsWith(b, taken, nil)
+}
+
+// feasibleSuccsWith: as feasibleSuccs, with the values loads of tracked local
+// variables have on this path.
+func feasibleSuccsWith(b *ssa.BasicBlock, taken map[*ssa.BasicBlock]int, loads map[ssa.Value]ssa.Value) []*ssa.BasicBlock {
 	iff := ifOf(b)
 	if iff == nil || len(b.Succs) != 2 {
 		return b.Succs
@@ -1848,6 +1862,10 @@ func feasibleSuccs(b *ssa.BasicBlock, taken map[*ssa.BasicBlock]int) []*ssa.Basi
 	c, _ := cmpOf(iff.Cond, true)
 	res := func(v ssa.Value) ssa.Value {
 		for n := 0; n < 4; n++ {
+			if lv, has := loads[v]; has {
+				v = lv
+				continue
+			}
 			phi, ok := v.(*ssa.Phi)
 			if !ok {
 				return v
@@ -1875,10 +1893,40 @@ func feasibleSuccs(b *ssa.BasicBlock, taken map[*ssa.BasicBlock]int) []*ssa.Basi
 }
 
 func pathCountThreaded(from *ssa.BasicBlock, match func(ssa.Instruction) bool, stop func(*ssa.BasicBlock) bool) (min, max int, ok bool) {
+	return pathEnum(from, nil, match, stop)
+}
+
+// pathEnum enumerates the acyclic paths from `from` to a function exit / a
+// stop block (to == nil) or to block `to` (other ends do not count), pruning
+// branches whose condition is decided by what the path itself established:
+// the predecessor through which a join was entered (phis), and the last value
+// the path stored into a local variable whose address does not escape (named
+// results such as err).  It returns the minimum and maximum number of
+// matching instructions over those paths; ok=false when the enumeration was
+// cut off.
+func pathEnum(from, to *ssa.BasicBlock, match func(ssa.Instruction) bool, stop func(*ssa.BasicBlock) bool) (min, max int, ok bool) {
 	steps := 0
 	any := false
 	onstack := map[*ssa.BasicBlock]bool{}
 	taken := map[*ssa.BasicBlock]int{}
+	cells := map[*ssa.Alloc]ssa.Value{}
+	loads := map[ssa.Value]ssa.Value{}
+	trackable := map[*ssa.Alloc]bool{}
+	for _, b := range from.Parent().Blocks {
+		for _, in := range b.Instrs {
+			if al, isAl := in.(*ssa.Alloc); isAl {
+				if ws, esc := cellWriters(al); !esc {
+					okW := true
+					for _, w := range ws {
+						if st, isSt := w.(*ssa.Store); !isSt || st.Parent() != al.Parent() {
+							okW = false
+						}
+					}
+					trackable[al] = okW
+				}
+			}
+		}
+	}
 	overflow := false
 	exit := func(acc int) {
 		if !any || acc < min {
@@ -1896,23 +1944,64 @@ func pathCountThreaded(from *ssa.BasicBlock, match func(ssa.Instruction) bool, s
 			overflow = true
 			return
 		}
-		if stop != nil && stop(b) && b != from {
+		if to == nil && stop != nil && stop(b) && b != from {
 			exit(acc)
 			return
 		}
+		// what this block does to tracked variables (undone when the walk backs out)
+		type undo struct {
+			cell *ssa.Alloc
+			old  ssa.Value
+			had  bool
+		}
+		var undos []undo
+		var loaded []ssa.Value
+		defer func() {
+			for i := len(undos) - 1; i >= 0; i-- {
+				if undos[i].had {
+					cells[undos[i].cell] = undos[i].old
+				} else {
+					delete(cells, undos[i].cell)
+				}
+			}
+			for _, l := range loaded {
+				delete(loads, l)
+			}
+		}()
 		for _, in := range b.Instrs {
 			if match(in) {
 				acc++
 			}
+			switch x := in.(type) {
+			case *ssa.Store:
+				if al, isAl := x.Addr.(*ssa.Alloc); isAl && trackable[al] {
+					old, had := cells[al]
+					undos = append(undos, undo{al, old, had})
+					cells[al] = x.Val
+				}
+			case *ssa.UnOp:
+				if al, isAl := x.X.(*ssa.Alloc); isAl && x.Op == token.MUL && trackable[al] {
+					if v, has := cells[al]; has {
+						loads[x] = v
+						loaded = append(loaded, x)
+					}
+				}
+			}
 		}
-		if len(b.Succs) == 0 {
+		if to != nil && b == to {
 			exit(acc)
 			return
 		}
+		if len(b.Succs) == 0 {
+			if to == nil {
+				exit(acc)
+			}
+			return
+		}
 		onstack[b] = true
-		for _, s := range feasibleSuccs(b, taken) {
+		for _, s := range feasibleSuccsWith(b, taken, loads) {
 			if isBackEdge(b, s) || onstack[s] {
-				if stop != nil && stop(s) {
+				if to == nil && stop != nil && stop(s) {
 					exit(acc)
 				}
 				continue
